@@ -34,7 +34,7 @@ pub fn gen_case(rng: &mut Rng, faults: bool) -> CliCase {
             let (_s, mut docs) = super::gen_history(rng, &cfg, 1);
             if rng.pct(8) {
                 // a large file (many read calls, size hint far off when statx fails): padding inside a comment
-                let n = *rng.pick(&[9_000usize, 70_000, 300_000]);
+                let n = *rng.pick(&[9_000usize, 70_000, 300_000, 1_100_000]);
                 docs[0].epilog.push(crate::dom::Misc::Comment("pad ".repeat(n / 4)));
             }
             InState::Present(docs[0].ser())
@@ -42,6 +42,14 @@ pub fn gen_case(rng: &mut Rng, faults: bool) -> CliCase {
         55..=69 => InState::Present(hostile(rng).0),
         70..=77 => {
             let mut b = base_document(rng);
+            if rng.pct(20) {
+                // a large file that is not UTF-8, the bad byte most likely inside the padding comment: whoever reads big
+                // inputs another way (streaming above 64 KiB / 1 MiB) must still refuse it like a small one
+                let n = *rng.pick(&[70_000usize, 300_000, 1_100_000]);
+                b.extend_from_slice(b"<!--");
+                b.extend_from_slice("pad ".repeat(n / 4).as_bytes());
+                b.extend_from_slice(b"-->");
+            }
             let bad: &[u8] = *rng.pick(&[&b"\xFF"[..], &b"\xC3"[..], &b"\xE2\x82"[..]]);
             let at = rng.below(b.len() + 1);
             b.splice(at..at, bad.iter().copied());
